@@ -155,21 +155,45 @@ func Main(t *testing.T, id string, gen func(thorough bool) []Scenario) {
 	results := map[string]scenResult{}
 	var mu sync.Mutex
 	var wg sync.WaitGroup
-	pending := make(chan int, len(scs))
+	// work queue of scenario indices; a worker process takes a batch and is restarted
+	// on the rest of its batch if an execution poisons or crashes it
+	queue := make([]int, len(scs))
 	for i := range scs {
-		pending <- i
+		queue[i] = i
 	}
-	close(pending)
+	batch := len(scs)/(nw*6) + 1
+	if batch > 24 {
+		batch = 24
+	}
+	retried := map[int]bool{}
 	var internal []string
+	take := func() []int {
+		mu.Lock()
+		defer mu.Unlock()
+		n := batch
+		if n > len(queue) {
+			n = len(queue)
+		}
+		b := append([]int(nil), queue[:n]...)
+		queue = queue[n:]
+		return b
+	}
 	for w := 0; w < nw; w++ {
 		wg.Add(1)
 		go func() {
 			defer wg.Done()
-			for i := range pending {
-				// one scenario per worker process: a poisoned or crashed worker costs one scenario
+			for {
+				b := take()
+				if len(b) == 0 {
+					return
+				}
+				var idx []string
+				for _, i := range b {
+					idx = append(idx, strconv.Itoa(i))
+				}
 				cmd := exec.Command(os.Args[0], "-test.run", "^"+t.Name()+"$", "-test.timeout", "0")
-				cmd.Env = append(os.Environ(), "VERIF_SHARD="+strconv.Itoa(i), "GOMAXPROCS=2", "VERIF_TIER="+c.Tier)
-				out, err := cmd.StdoutPipe()
+				cmd.Env = append(os.Environ(), "VERIF_SHARD="+strings.Join(idx, ","), "GOMAXPROCS=2", "VERIF_TIER="+c.Tier)
+				out, _ := cmd.StdoutPipe()
 				cmd.Stderr = os.Stderr
 				if err2 := cmd.Start(); err2 != nil {
 					mu.Lock()
@@ -177,11 +201,16 @@ func Main(t *testing.T, id string, gen func(thorough bool) []Scenario) {
 					mu.Unlock()
 					continue
 				}
-				got := false
+				doneIdx := map[int]bool{}
+				started := -1
 				sc := bufio.NewScanner(out)
 				sc.Buffer(make([]byte, 1<<20), 1<<26)
 				for sc.Scan() {
 					ln := sc.Text()
+					if strings.HasPrefix(ln, "E1START ") {
+						started, _ = strconv.Atoi(ln[8:])
+						continue
+					}
 					if !strings.HasPrefix(ln, "E1RESULT ") {
 						continue
 					}
@@ -190,15 +219,25 @@ func Main(t *testing.T, id string, gen func(thorough bool) []Scenario) {
 						mu.Lock()
 						results[r.Name] = r
 						mu.Unlock()
-						got = true
+						doneIdx[started] = true
 					}
 				}
 				werr := cmd.Wait()
-				if !got {
-					mu.Lock()
-					internal = append(internal, fmt.Sprintf("worker for scenario %q produced no result (%v %v)", scs[i].Name, err, werr))
-					mu.Unlock()
+				mu.Lock()
+				for _, i := range b {
+					if doneIdx[i] {
+						continue
+					}
+					if i == started && retried[i] {
+						internal = append(internal, fmt.Sprintf("worker died twice in scenario %q (%v)", scs[i].Name, werr))
+						continue
+					}
+					if i == started {
+						retried[i] = true
+					}
+					queue = append(queue, i)
 				}
+				mu.Unlock()
 			}
 		}()
 	}
@@ -273,15 +312,21 @@ func Main(t *testing.T, id string, gen func(thorough bool) []Scenario) {
 }
 
 func worker(t *testing.T, shard string, gen func(bool) []Scenario) {
-	idx, _ := strconv.Atoi(shard)
 	scs := gen(os.Getenv("VERIF_TIER") == "thorough")
-	if idx < 0 || idx >= len(scs) {
-		return
+	for _, f := range strings.Split(shard, ",") {
+		idx, err := strconv.Atoi(f)
+		if err != nil || idx < 0 || idx >= len(scs) {
+			continue
+		}
+		fmt.Printf("E1START %d\n", idx)
+		r := runScenario(t, scs[idx])
+		b, _ := json.Marshal(r)
+		fmt.Printf("E1RESULT %s\n", b)
+		os.Stdout.Sync()
+		if rt.Poisoned.Load() {
+			break // the parent restarts a fresh worker on the rest of the batch
+		}
 	}
-	r := runScenario(t, scs[idx])
-	b, _ := json.Marshal(r)
-	fmt.Printf("E1RESULT %s\n", b)
-	os.Stdout.Sync()
 	// leftover goroutines of a poisoned bubble would make the test binary hang or panic
 	os.Exit(0)
 }
